@@ -218,6 +218,13 @@ theorem cache_copy_identical (ops : List BufOp) :
   rw [actBytes_append]
   exact ⟨h1, h2, by rw [h1, h2]⟩
 
+/-- `copied_data()` can be asked again (a second `store_page` under another key): it returns the same page,
+not the buffer's capacity (fixed in /repo: `copy_buf::getstr` keeps exactly the data) -/
+theorem cache_copy_repeatable (k : Copy) : k.getstr.2.getstr.1 = k.getstr.1 := by
+  unfold Copy.getstr
+  simp only [Bool.false_eq_true, if_false]
+  exact List.take_length
+
 /-- non-vacuity: 300 bytes overflow the initial 128-byte buffer twice (doubling to 256 then 512) -/
 example : ((Copy.run ({}, []) [.put (List.replicate 300 7), .sync]).1.vec.length,
            actBytes (Copy.run ({}, []) [.put (List.replicate 300 7), .sync]).2 == List.replicate 300 7) = (512, true) := by
